@@ -10,6 +10,7 @@ import (
 	"github.com/vektah/gqlparser/v2/gqlerror"
 	"github.com/vektah/gqlparser/v2/parser"
 	"github.com/vektah/gqlparser/v2/validator"
+	"github.com/vektah/gqlparser/v2/validator/rules"
 
 	"verif/mc/explore"
 	"verif/mc/ref/refvalid"
@@ -253,9 +254,41 @@ func c09Doc(c *explore.Ctx, s *explore.SubStats, d kitDoc) {
 	}
 	s.Validated++
 	s.Nontrivial++
+	c09Links(c, s, d, schema, doc, "")
+	// the links are filled in by the walk, whichever rules observe it: the same document walked
+	// under an explicitly empty rule list, under one rule, and by Walk with no observer at all
+	for _, mode := range []string{"empty-rule-list", "single-rule", "walk-only"} {
+		d2, _ := parser.ParseQuery(&ast.Source{Name: "q.graphql", Input: d.Doc})
+		r := guarded(c02DocBudget, 5000, func() {
+			switch mode {
+			case "empty-rule-list":
+				validator.Validate(schema, d2, []validator.Rule{}...)
+			case "single-rule":
+				validator.Validate(schema, d2, rules.ScalarLeafsRule)
+			default:
+				validator.Walk(schema, d2, &validator.Events{})
+			}
+		})
+		if r.Panicked {
+			c.Report(s, explore.Violation{Key: "link/panic via=" + mode + " site=" + r.Site, Input: explore.J(d), Rendered: d.Doc, Detail: r.PanicVal})
+			continue
+		}
+		c09Links(c, s, d, schema, d2, mode)
+	}
+	s.Outcome("linked")
+	s.Sample(func() any { return d })
+}
+
+// c09Links checks every link of a walked document. via names the way it was walked ("" = the
+// default rule set).
+func c09Links(c *explore.Ctx, s *explore.SubStats, d kitDoc, schema *ast.Schema, doc *ast.QueryDocument, via string) {
 	seen := map[string]bool{}
 	l := &linkChecker{sch: schema, doc: doc}
 	l.bad = func(key, detail string) {
+		if via != "" {
+			// same cause key whatever the way the document was walked
+			detail = "(document walked by " + via + ") " + detail
+		}
 		if seen[key] {
 			return
 		}
@@ -298,8 +331,6 @@ func c09Doc(c *explore.Ctx, s *explore.SubStats, d kitDoc) {
 	}
 	s.Transitions += l.n
 	s.MaxOf("links_per_document", l.n)
-	s.Outcome("linked")
-	s.Sample(func() any { return d })
 }
 
 func runC09(c *explore.Ctx) {
